@@ -330,7 +330,7 @@ def run_mpi(cfg, spec, want_log):
         return out
 
     t0 = _time.time()
-    res = w.run(main)
+    res = w.run(main, timeout=cfg.get("run_timeout", 240))
     out = {'ranks': res, 'errors': w.errors, 'abort': w.abort, 'deadlock': w.deadlock, 'findings': w.findings,
            'nevents': len(w.log), 'decisions': getattr(sched, 'decisions', None)}
     wall = _time.time() - t0
@@ -365,19 +365,32 @@ SCHEDULE_DEPENDENT_FINDINGS = ()
 
 
 def expand(cfg, spec):
-    """generator of concrete schedule specs; 'enumdfs' explores the first `depth` decisions exhaustively
-    (depth-first, at most `maxruns` runs), feeding back the recorded decision trace"""
-    if spec[0] != 'enumdfs':
-        yield spec, None
-        return
-    depth, maxruns = spec[1], spec[2]
-    vec = []
-    for _ in range(maxruns):
+    """generator of concrete schedule specs.
+    'enumdfs' explores the first `depth` decisions exhaustively (depth-first, at most `maxruns` runs), feeding back
+    the recorded decision trace;  'enumdev' runs the default schedule (always option 0) and then every schedule
+    that deviates from it at exactly ONE decision (at most `maxruns`, evenly spread over the decisions)."""
+    if spec[0] == 'enumdfs':
+        depth, maxruns = spec[1], spec[2]
+        vec = []
+        for _ in range(maxruns):
+            fb = {}
+            yield ['enum', vec], fb
+            vec = core.EnumScheduler.next_vector(fb.get('trace', []), max_depth=depth)
+            if vec is None:
+                return
+    elif spec[0] == 'enumdev':
+        maxruns = spec[1]
         fb = {}
-        yield ['enum', vec], fb
-        vec = core.EnumScheduler.next_vector(fb.get('trace', []), max_depth=depth)
-        if vec is None:
-            return
+        yield ['enum', []], fb
+        trace = fb.get('trace', [])
+        devs = [(i, c) for i, (_, n) in enumerate(trace) for c in range(1, n)]
+        if len(devs) > maxruns:
+            step = len(devs) / float(maxruns)
+            devs = [devs[int(k * step)] for k in range(maxruns)]
+        for i, c in devs:
+            yield ['enum', [0] * i + [c]], {}
+    else:
+        yield spec, None
 
 
 def main():
@@ -394,6 +407,7 @@ def main():
             for spec, fb in expand(cfg, spec0):
                 try:
                     m = run_mpi(cfg, spec, i in want and fb is None)
+                    fbtrace = m.get('trace', [])
                     m['spec'] = spec
                     m['spec_index'] = i
                     if fb is not None:
